@@ -690,3 +690,89 @@ def o8_neq(h):
             return [], [Eq(s0(o[0]), 0.0, name='value_is_zero'), Eq(c12.fl(c12.M(o[1])), 0.0, name='gradient_is_zero'),
                         Eq(c12.fl(c12.M(o[2])), [v_mul(v_mul(2.0, k), x) for x in c12.fl(dev(dE))], name='second_derivative_is_2G_dev_of_direction')]
         c0.prove(tname + '_at_Ee_eq_aI', spec0, order=('nlsat', 'core'), denoms=False, cap=60)
+
+
+# ------------------------------------------------------------------------------------------------ O8b (visco non-equilibrium part WITH the state update inside)
+class _visco_cut:
+    """while tracing / running: module._compute_elastic_logarithmic_strain(dispGrad, state_n) := E_n + dispGrad (the trial elastic log strain of the
+    n-th call is a harness input, shifted by the differentiation variable) and module._eq_strain_energy := 0. Everything else of _energy_density
+    (state increment, non-equilibrium energy, dissipation potential, branch bookkeeping) is the real code."""
+
+    def __init__(self, mod, Es):
+        self.mod, self.Es, self.n = mod, Es, 0
+
+    def __enter__(self):
+        self.old = (self.mod._compute_elastic_logarithmic_strain, self.mod._eq_strain_energy)
+
+        def trial(dispGrad, state):
+            E = self.Es[self.n % len(self.Es)]
+            self.n += 1
+            return E + dispGrad
+        self.mod._compute_elastic_logarithmic_strain = trial
+        self.mod._eq_strain_energy = lambda dispGrad, props: 0.0 * dispGrad[0, 0]
+        return self
+
+    def __exit__(self, *a):
+        self.mod._compute_elastic_logarithmic_strain, self.mod._eq_strain_energy = self.old
+
+
+def _visco_update_obligation(h, mod, nbr, label, active):
+    """one query set per ACTIVE branch: its trial strain E is symbolic, the other branches' trial strains are zero (the energy is a sum over
+    branches: a branch reading the wrong modulus / relaxation time shows up when it is the active one); the second derivative does not depend on
+    the strains and always carries ALL branches"""
+    def dev(A):
+        t3 = c12._third(v_sum([A[0][0], A[1][1], A[2][2]]))
+        return [[v_sub(A[i][j], t3) if i == j else A[i][j] for j in range(3)] for i in range(3)]
+
+    def fn(E, dE, dt, Gs, taus):
+        props = jnp.concatenate([jnp.array([1.0, 1.0]) + 0.0 * dt, jnp.stack([x for pair in zip(Gs, taus) for x in pair])])
+        state = jnp.zeros(9 * nbr)
+        Es = [E if n == active else jnp.zeros((3, 3)) for n in range(nbr)]
+
+        def w(X):
+            with _visco_cut(mod, Es):
+                return mod._energy_density(X, state, dt, props)
+        X0 = jnp.zeros((3, 3))
+        g, hv = jax.jvp(jax.grad(w), (X0,), (dE,))
+        return w(X0), g, hv
+
+    def smp(rng):
+        return [rng.normal(size=(3, 3)) * 0.3, c12.rnd33(rng), rng.uniform(0.1, 2.0), rng.uniform(0.5, 3.0, size=nbr), rng.uniform(0.2, 2.0, size=nbr)]
+    ex = dict(E=0.1 * onp.arange(9).reshape(3, 3) / 9.0, dE=onp.eye(3) * 0.2 + 0.1, dt=0.5, Gs=onp.arange(1, nbr + 1) * 1.0, taus=onp.arange(1, nbr + 1) * 0.7)
+    tag = '%s[branch%d_active]' % (label, active + 1)
+    c = Case(h, fn, ex, sampler=smp, label=tag, jit=False)
+
+    def spec(i, o):
+        E, dE, dt, Gs, taus = c12.M(i['E']), c12.M(i['dE']), s0(i['dt']), list(i['Gs']), list(i['taus'])
+        asm = [v_lt(0.0, dt)] + [v_lt(0.0, t) for t in taus]
+        D, dD = dev(E), dev(dE)
+
+        def eff(n):       # effective modulus of a branch after eliminating the viscous increment: G_n / (1 + dt/tau_n) = G_n tau_n / (tau_n + dt)
+            den = v_add(taus[n], dt)
+            return (Gs[n] * taus[n] / den) if sym.num(den) and sym.num(Gs[n]) and sym.num(taus[n]) else sym.toz(v_mul(Gs[n], taus[n])) / sym.toz(den)
+        ka = eff(active)
+        ks = v_sum([eff(n) for n in range(nbr)])
+        return asm, [Eq(s0(o[0]), v_mul(ka, v_dot(c12.fl(D), c12.fl(D))), name='value_is_G_over_1_plus_dt_over_tau_dev_ddot_dev')] + \
+            [Eq(c12.M(o[1])[a][b], v_mul(v_mul(2.0, ka), D[a][b]), name='gradient[%d%d]' % (a, b)) for a in range(3) for b in range(3)] + \
+            [Eq(c12.M(o[2])[a][b], v_mul(v_mul(2.0, ks), dD[a][b]), name='second_derivative_is_sum_2Gn_over_1_plus_dt_over_tau_dev_dE[%d%d]' % (a, b)) for a in range(3) for b in range(3)]
+    c.prove(tag, spec, order=('nlsat', 'core'), denoms=True, cap=60)
+
+
+@obligation(P, 'O8b.visco_neq_update_second_derivative', cap=400)
+def o8b_visco(h):
+    """the non-equilibrium part of the REAL _energy_density of MultiBranchHyperViscoelastic (3 branches) and HyperViscoelastic (1 branch) WITH the state
+    update inside, as a function of the trial elastic log strain(s): value sum_n G_n/(1+dt/tau_n) |dev E_n|^2, gradient and second derivative
+    (jax.jvp of jax.grad, all trial strains moved along dE) sum_n 2 G_n/(1+dt/tau_n) dev(dE): the tangent must contain the dependence of the viscous
+    increment on the strain"""
+    from optimism.material import HyperViscoelastic as HV, MultiBranchHyperViscoelastic as MB
+    h.encoded(MB._energy_density, MB._compute_state_increment, MB._neq_strain_energy, MB._dissipation_potential, MB._return_Gneq_id_for_branch,
+              HV._energy_density, HV._compute_state_increment, HV._neq_strain_energy, HV._dissipation_potential)
+    h.bounds('one case per active branch: its trial elastic strain E all real 3x3, the other branches at zero trial strain (the energy is additive over branches); '
+             'direction dE: all real 3x3; dt > 0, tau_n > 0, G_n: all reals (symbolic); the second derivative carries all branches in every case')
+    h.outside('the logarithmic strain itself (TensorMath.log_sqrt_symm of the trial elastic deformation) and the equilibrium energy: cut (see assumptions)', *NA)
+    h.assume_note('cut: _compute_elastic_logarithmic_strain(dispGrad, state_n) is replaced by E_n + dispGrad (harness inputs; the differentiation variable enters '
+                  'additively, so derivatives w.r.t. it are derivatives w.r.t. the trial strain) and _eq_strain_energy by 0; module attributes patched at trace time, '
+                  'the rest of _energy_density is the real code; replays run the same cut')
+    for n in range(3):
+        _visco_update_obligation(h, MB, 3, 'multibranch', n)
+    _visco_update_obligation(h, HV, 1, 'single_branch', 0)
